@@ -34,7 +34,7 @@ TARGETS = [
          structs=["vls-core/src/tx/tx.rs"], fns=[
         ("EnforcementState", "minimum_to_holder_value", "C07", "C07_fn_minimum_to_holder_value"),
         ("EnforcementState", "minimum_to_counterparty_value", "C07", "C07_fn_minimum_to_counterparty_value"),
-        ("", "min_opt", "C06", None, "snippet"),
+        ("", "min_opt", "C06", "C06_fn_min_opt", "snippet"),
     ]),
     dict(area="Kvv", rel="vls-persist/src/kvv/memory.rs", consts=[], externals={}, fns=[
         ("MemoryKVVStore", "put_with_version", "C16", "C16_fn_put_with_version"),
@@ -104,12 +104,12 @@ TARGETS = [
          structs=["vls-core/src/policy/validator.rs"],
          # declared externals (trusted boundary, explicit parameters of the generated definitions): key derivation of the
          # LDK signer and secp parsing; `self.validator()` is only the receiver of `policy_err!` (its policy filter is the
-         # external `policy_filter_err`); a declared `Result` is read as `Option` (`Err` = `none`)
+         # external `policy_filter_err`); a `Result` declared with "as_option" is read as `Option` (`Err` = `none`)
          externals={
              "self.validator": {"params": [], "ret": "()", "drop": True},
              "self.get_per_commitment_point_unchecked": {"params": ["u64"], "ret": "PublicKey"},
-             "InMemorySigner.release_commitment_secret": {"params": ["u64"], "ret": "Result<Secret32, ()>"},
-             "SecretKey::from_slice": {"params": ["Secret32"], "ret": "Result<SecretKey, ()>"},
+             "InMemorySigner.release_commitment_secret": {"params": ["u64"], "ret": "Result<Secret32, ()>", "as_option": True},
+             "SecretKey::from_slice": {"params": ["Secret32"], "ret": "Result<SecretKey, ()>", "as_option": True},
          }, fns=[
         # `impl ChannelBase for ChannelStub`: a channel that is not set up never discloses a secret (C01)
         ("ChannelStub", "get_per_commitment_secret", "C01", "C01_fn_stub_get_per_commitment_secret"),
